@@ -276,8 +276,8 @@ static void c15_run(uint64_t seed, uint64_t index, bool thorough) {
         static const Syntax bsy[] = {SY_DER, SY_OER, SY_UPER, SY_XER};
         bool small_chunks = (bi & 1) != 0; bi >>= 1;
         const Bulk &b = BULKS[bi / 12]; size_t k = BULK_SIZES[(bi / 4) % 3]; Syntax sy = bsy[bi % 4];
-        if(small_chunks && k > 140000) k = 140000;            // a slow peer: ~1 KB per delivery (quadratic re-reading shows here)
-        size_t chunk = index < grid + bgrid ? (small_chunks ? 1024 : 16384) : (size_t)(1 + rs.below(65536));
+        if(small_chunks && k > 140000) k = 140000;            // a slow peer: 1021 bytes per delivery - a prime, so deliveries end in every phase of the 2- and 8-character text units (quadratic re-reading shows here)
+        size_t chunk = index < grid + bgrid ? (small_chunks ? 1021 : 16384) : (size_t)(1 + rs.below(65536));
         Plan head; head.set("property", "C15"); head.set("program", SIM_PROGRAM); head.set("mode", "bulk"); head.set("template", b.name);
         head.set("size", L((long)k)); head.set("syntax", syntax_name(sy)); head.set("chunk", L((long)chunk)); head.set("budget", "A=" + L(HEAP_A_BULK) + " B=" + L(HEAP_B));
         status_head(head.head_str()); status_ops("op deliver rest\n");
